@@ -1,10 +1,10 @@
 import SqlProofs.CteShape.Skeletons
-/-! CTE skeleton table, entries 20 … 29: kernel evaluation of the real lexer rules, `groupStatement` and `getType` -/
+/-! CTE skeleton table, entries 10 … 14: kernel evaluation of the real lexer rules, `groupStatement` and `getType` -/
 namespace Sql
 namespace Acc
 
 set_option maxRecDepth 1000000 in
-theorem cte_020 : ((cteSkels.drop 20).take 10).all cteCheck = true := by decide +kernel
+theorem cte_010 : ((cteSkels.drop 10).take 5).all cteCheck = true := by decide +kernel
 
 end Acc
 end Sql
